@@ -103,8 +103,13 @@ def monitor(lines, impl, which):
                 if a.startswith("K:"): ktips.add((ws[1], a[2:]))
                 if a.startswith("R:"): rtips.add((ws[1], a[2:]))
     ktips -= rtips
+    tr_all, last_obs = [], []
     for op, ret, t, entries in Walk(lines, impl).steps():
         w = op.split()
+        if ret == "obs":
+            last_obs = entries
+        elif t is not None:
+            tr_all.extend(entries)
         if w[0] == "net":
             apply_net(ns, w)
         if w[0] == "skew" and len(w) == 3:
@@ -354,4 +359,59 @@ def monitor(lines, impl, which):
                 crash_epoch.setdefault(f[1], []).append((seq, et))
             elif kind == "NR":
                 crashed.pop(f[1], None)
+    if which == "C06" and not any(l.split()[0] in ("crash", "recover") for l in lines if l.split()):
+        msg = tie_order(tr_all, last_obs)
+        if msg:
+            return msg
+    return None
+
+
+def tie_order(tr_all, obs):
+    """C06 "ties in creation order", across kinds: within one handler call a process issues its calls in the order its event log
+    lists them; if a message it sent and a timer it set in that call fall due at exactly the same time, the one issued first is
+    handled first.  The k-th `sent` / `tset` of the event log is the k-th MessageSent / TimerSet of that process in the trace."""
+    pos_ms, pos_ts, first_mr, first_tf = {}, {}, {}, {}
+    for i, (kind, f) in enumerate(tr_all):
+        if kind == "MS":
+            pos_ms.setdefault(f[3], []).append(f[1])                    # proc -> message ids in order
+        elif kind == "TS":
+            pos_ts.setdefault(f[4], []).append(f[1])                    # proc -> timer ids in order
+        elif kind == "MR" and f[1] not in first_mr:
+            first_mr[f[1]] = (i, f[0])
+        elif kind == "TF" and f[1] not in first_tf:
+            first_tf[f[1]] = (i, f[0])
+    nmr = {}
+    for kind, f in tr_all:
+        if kind == "MR":
+            nmr[f[1]] = nmr.get(f[1], 0) + 1
+    for l in obs:
+        m = re.match(r"P (\S+) \S+ st=\S* out=\S* s=\d+ r=\d+ (?:iss=\d+ )?(?:issok=\d )?log=\[(.*)\]$", l)
+        if not m:
+            continue
+        p = m.group(1)
+        log = re.findall(r"([0-9a-f]{16}):(sent|tset)\(", m.group(2))
+        if sum(1 for _, k in log if k == "sent") != len(pos_ms.get(p, [])) or sum(1 for _, k in log if k == "tset") != len(pos_ts.get(p, [])):
+            continue
+        ks = kt = 0
+        items = []
+        for tm, k in log:
+            if k == "sent":
+                items.append((tm, "m", pos_ms[p][ks])); ks += 1
+            else:
+                items.append((tm, "t", pos_ts[p][kt])); kt += 1
+        for a in range(len(items)):
+            for b in range(a + 1, len(items)):
+                if items[a][0] != items[b][0]:
+                    break
+                if items[a][1] == items[b][1]:
+                    continue
+                xa = first_mr.get(items[a][2]) if items[a][1] == "m" else first_tf.get(items[a][2])
+                xb = first_mr.get(items[b][2]) if items[b][1] == "m" else first_tf.get(items[b][2])
+                mid = items[a][2] if items[a][1] == "m" else items[b][2]
+                if xa is None or xb is None or nmr.get(mid, 0) != 1:
+                    continue
+                if xa[1] == xb[1] and xa[0] > xb[0]:
+                    what = ("message", "timer") if items[a][1] == "m" else ("timer", "message")
+                    return (f"process {p} issued a {what[0]} ({items[a][2]}) before a {what[1]} ({items[b][2]}) in one handler call (its event "
+                            f"log), both fell due at time {hexf(xa[1])}, yet the {what[1]} was handled first: ties are not handled in creation order")
     return None
